@@ -9,6 +9,7 @@ import numpy as np
 
 from symx import lib, stubs
 
+from .C10 import h_roundtrip as h_persist_hdf5  # noqa: F401  (subregion names in order and corners through the HDF5 writer/reader)
 from .C13 import h_history as h_transform_history  # noqa: F401  (translate / scale / rotate90 with subregions: images of lattice boxes)
 from .common import DIMSETS, sym_mesh
 
@@ -22,7 +23,7 @@ META = dict(
            "the real json module and a scratch directory in native replays"],
     assumptions=["REAL theory", "cell sizes >= 1e-9 where the code compares against the absolute 1e-12 alignment tolerance",
                  "acceptance test of a candidate box: concrete mesh geometry (floor/remainder of a symbolic corner over a symbolic cell is out of z3's reach)"],
-    outside=["cells below 1e-9 (absolute 1e-12 tolerance in is_aligned)", "HDF5 persistence until C10 is claimed (then imported)"],
+    outside=["cells below 1e-9 (absolute 1e-12 tolerance in is_aligned)", "h5py itself (stub contract, see C10)"],
 )
 
 TF = 1e-12
@@ -485,6 +486,10 @@ def tasks(tier):
         t.append(dict(harness="h_select_fp", cfg=g))
     for nd in ((1, 2, 3) if q else (1, 2, 3, 4)):
         t.append(dict(harness="h_persist_json", cfg=dict(n=list(NS[nd]), layout=LAYOUTS[nd], dims="renamed" if nd % 2 else "default"), limits=big))
+    from . import C10
+
+    for x in [x for x in C10.tasks(tier) if x["harness"] == "h_roundtrip" and x["cfg"].get("subregions")][:: 2 if q else 1]:
+        t.append(dict(harness="h_persist_hdf5", cfg=x["cfg"], limits=x.get("limits", {})))
     # transformations of meshes with subregions (C13's inductive-step harness: the stored subregions are the images of the lattice boxes)
     from . import C13
 
